@@ -318,6 +318,131 @@ impl RefLexer {
     }
 }
 
+impl RefLexer {
+    /// Partial-mode determinedness (C07): with the buffer `s[..k]` and a match attempt started at `p`
+    /// (p <= k), must the lexer wait for more input? True iff a match ending strictly after `k` is
+    /// still reachable for some pattern, or the outcome at `k` differs between two of the 257 next
+    /// symbols (256 bytes + end of input).
+    pub fn wait(&self, s: &[u8], p: usize, k: usize, prio: &[usize]) -> bool {
+        // best confirmed match ending before k, per pattern states at k
+        let mut before: Option<(usize, Vec<usize>)> = None; // (end, patterns)
+        let note = |end: usize, i: usize, before: &mut Option<(usize, Vec<usize>)>| match before {
+            Some((e, v)) if *e == end => v.push(i),
+            Some((e, _)) if *e > end => {}
+            _ => *before = Some((end, vec![i])),
+        };
+        enum St<'a> {
+            Dead,
+            Exact(&'a [u8], usize),
+            Dfa(&'a RefDfa, regex_automata::util::primitives::StateID),
+        }
+        let mut states: Vec<St> = Vec::new();
+        for (i, pt) in self.pats.iter().enumerate() {
+            match &pt.matcher {
+                Matcher::Exact(w) => {
+                    let have = &s[p..k];
+                    if have.len() <= w.len() && w[..have.len()] == *have {
+                        states.push(St::Exact(w, have.len()));
+                    } else {
+                        if have.len() > w.len() && have[..w.len()] == w[..] && !w.is_empty() {
+                            note(p + w.len(), i, &mut before);
+                        }
+                        states.push(St::Dead);
+                    }
+                }
+                Matcher::Dfa(d) => {
+                    let mut st = d.start;
+                    let mut dead = false;
+                    for (j, &b) in s[p..k].iter().enumerate() {
+                        st = d.dfa.next_state(st, b);
+                        if d.dfa.is_match_state(st) && j > 0 {
+                            note(p + j, i, &mut before);
+                        }
+                        if d.dfa.is_dead_state(st) {
+                            dead = true;
+                            break;
+                        }
+                    }
+                    states.push(if dead { St::Dead } else { St::Dfa(d, st) });
+                }
+            }
+        }
+        // a longer match reachable?
+        for st in &states {
+            match st {
+                St::Dead => {}
+                St::Exact(w, c) => {
+                    if *c < w.len() {
+                        return true;
+                    }
+                }
+                St::Dfa(d, st) => {
+                    if d.longer[d.idx(*st)] {
+                        return true;
+                    }
+                }
+            }
+        }
+        if k == p {
+            // nothing read yet and nothing can match: the error needs at least one byte
+            return true;
+        }
+        // outcome at k per next symbol
+        let winner = |set: &[usize]| -> Vec<usize> {
+            let top = set.iter().map(|&i| prio[i]).max().unwrap();
+            set.iter().copied().filter(|&i| prio[i] == top).collect()
+        };
+        let fallback: Option<(usize, Vec<usize>)> = before.as_ref().map(|(e, v)| (*e, winner(v)));
+        let mut first: Option<Option<(usize, Vec<usize>)>> = None;
+        for sym in 0..=256usize {
+            let mut m: Vec<usize> = Vec::new();
+            for (i, st) in states.iter().enumerate() {
+                match st {
+                    St::Dead => {}
+                    St::Exact(w, c) => {
+                        if *c == w.len() && !w.is_empty() {
+                            m.push(i);
+                        }
+                    }
+                    St::Dfa(d, st) => {
+                        let t = if sym < 256 { d.dfa.next_state(*st, sym as u8) } else { d.dfa.next_eoi_state(*st) };
+                        if d.dfa.is_match_state(t) {
+                            m.push(i);
+                        }
+                    }
+                }
+            }
+            let outcome = if m.is_empty() { fallback.clone() } else { Some((k, winner(&m))) };
+            match &first {
+                None => first = Some(outcome),
+                Some(f) => {
+                    if *f != outcome {
+                        return true;
+                    }
+                }
+            }
+        }
+        false
+    }
+
+    pub fn has_lookaround(&self) -> bool {
+        fn look(h: &Hir) -> bool {
+            use regex_syntax::hir::HirKind;
+            match h.kind() {
+                HirKind::Look(_) => true,
+                HirKind::Repetition(r) => look(&r.sub),
+                HirKind::Capture(c) => look(&c.sub),
+                HirKind::Concat(v) | HirKind::Alternation(v) => v.iter().any(look),
+                _ => false,
+            }
+        }
+        self.pats.iter().any(|p| match &p.matcher {
+            Matcher::Dfa(d) => look(&d.hir),
+            _ => false,
+        })
+    }
+}
+
 #[derive(Clone, Debug, PartialEq, Eq)]
 pub enum Verdict {
     /// longest match ends at `end`; `winners` = top-priority patterns among those matching exactly
